@@ -223,6 +223,7 @@ fn spec_to_replay(p: &GenParams, steps: &[Step], choices: &[usize]) -> Value {
             "ns_count": p.ns_count,
             "send_additional": p.send_additional,
             "chase_in_reply": p.chase_in_reply,
+            "v6_glue_first": p.v6_glue_first,
             "families": p.families.iter().map(|f| format!("{f:?}")).collect::<Vec<_>>(),
         },
         "steps": steps.iter().map(step_to_json).collect::<Vec<_>>(),
@@ -270,6 +271,7 @@ pub fn params_from_json(v: &Value) -> GenParams {
     let style = |s: &str| match s {
         "InParent" => NsStyle::InParent,
         "Sibling" => NsStyle::Sibling,
+        "SiblingApexNs" => NsStyle::SiblingApexNs,
         _ => NsStyle::InZoneGlue,
     };
     let fam = |s: &str| match s {
@@ -285,6 +287,7 @@ pub fn params_from_json(v: &Value) -> GenParams {
         ns_count: v["ns_count"].as_array().map(|a| a.iter().map(|n| n.as_u64().unwrap_or(1) as usize).collect()).unwrap_or_default(),
         send_additional: v["send_additional"].as_bool().unwrap_or(true),
         chase_in_reply: v["chase_in_reply"].as_bool().unwrap_or(false),
+        v6_glue_first: v["v6_glue_first"].as_bool().unwrap_or(false),
         families: v["families"].as_array().map(|a| a.iter().map(|s| fam(s.as_str().unwrap_or(""))).collect()).unwrap_or_default(),
     }
 }
